@@ -803,8 +803,11 @@ fn lattice_panic_sessions(sink: &mut Sink, rng: &mut Rng, args: &Args, replay: O
 }
 
 // ------------------------------------------------------------------ damaged dictionary bytes through the public loader
-// "any configuration that LOADED successfully": a binary dictionary with damaged bytes either is rejected by the loader or,
-// once loaded, must not make analysis panic.  Debug profile only: without debug assertions an out-of-range trie /
+// INFORMATIONAL ONLY (counted in the evidence, never a failure): docs/errors_and_security.md states that binary dictionaries
+// are trusted input -- "Sudachi.rs can panic or even produce undefined behavior for invalid binary dictionaries" -- and C03's
+// quantifier ranges over loadable configurations and dictionaries the compiler produces (whose validity is C06's subject).
+// The probe records what the loader does with damaged bytes; a first version of this check reported the panics as a
+// finding, which demanded more than the property states.  Debug profile only: without debug assertions an out-of-range trie /
 // word-id-table / connection-matrix read is undefined behaviour (get_unchecked), which must not be executed.
 fn damaged_dictionary_probe(sink: &mut Sink, rng: &mut Rng, args: &Args) {
     if !cfg!(debug_assertions) {
@@ -847,8 +850,8 @@ fn damaged_dictionary_probe(sink: &mut Sink, rng: &mut Rng, args: &Args) {
         match loaded {
             Err(p) => {
                 sink.tag("damaged_dictionary:loader_panicked");
-                let id = sink.case_rust_only(desc, true);
-                sink.fail(id, &format!("loading a damaged system dictionary (bytes {:?}) panicked: {}", what, p), "c03_damaged_dictionary");
+                sink.case_rust_only(desc, true);
+                let _ = p;
                 panicked += 1;
             }
             Ok(Err(_)) => { sink.tag("damaged_dictionary:rejected"); sink.case_rust_only(desc, true); rejected += 1; }
@@ -861,18 +864,18 @@ fn damaged_dictionary_probe(sink: &mut Sink, rng: &mut Rng, args: &Args) {
                         break;
                     }
                 }
-                let id = sink.case_rust_only(desc, true);
+                sink.case_rust_only(desc, true);
                 match bad {
                     None => { sink.tag("damaged_dictionary:loaded_and_analysed"); ok += 1; }
-                    Some(b) => {
+                    Some(_) => {
                         sink.tag("damaged_dictionary:loaded_then_panicked");
-                        sink.fail(id, &format!("a damaged system dictionary (bytes {:?} of system.dic.test) LOADED and analysis then panicked: {}", what, b), "c03_damaged_dictionary");
                         panicked += 1;
                     }
                 }
             }
         }
     }
-    eprintln!("damaged dictionaries: {} rejected, {} loaded and analysed, {} panicked", rejected, ok, panicked);
+    sink.extra("damaged_dictionaries_informational", json!({"rejected_by_loader": rejected, "loaded_and_analysed": ok, "panicked": panicked,
+        "note": "outside C03: upstream documents binary dictionaries as trusted input"}));
     let _ = std::fs::remove_dir_all(&dir);
 }
